@@ -43,8 +43,8 @@ Proof.
 Qed.
 
 (* ---- setup ---- *)
-Theorem setup_junk_indep K ident j1 j2 S n p m B :
-  RR sv_agree_strong (setup K ident j1 S n p m B) (setup K ident j2 S n p m B).
+Theorem setup_junk_indep K ident sq j1 j2 S n p m B :
+  RR sv_agree_strong (setup K ident sq j1 S n p m B) (setup K ident sq j2 S n p m B).
 Proof.
   unfold setup. destruct (b_P B) as [P|]; [|reflexivity]. destruct (b_c B) as [c|]; [|reflexivity].
   repeat rr_step.
@@ -207,6 +207,7 @@ End SolveIndep.
 (* ---- update ---- *)
 Section UpdateIndep.
 Variable K : Consts.
+Variable sq : bool.          (* sparse_pc of API.v *)
 
 (* the block replacement of DenseSolver::update (on unscaled data) *)
 Definition replace_blocks (d0 : Data) (B : Blocks) : Data :=
@@ -229,12 +230,12 @@ Definition replace_blocks (d0 : Data) (B : Blocks) : Data :=
 Definition update_data (sv : Solver) (B : Blocks) (reuse : bool) : res (Precond * Data) :=
   let S := sv_set sv in
   do d0 <- unscale_data (sv_pc sv) (sv_data sv) ;;
-  scale_data K (sv_pc sv) (replace_blocks d0 B) reuse (preconditioner_scale_cost S) (preconditioner_iter S).
+  scale_data K sq (sv_pc sv) (replace_blocks d0 B) reuse (preconditioner_scale_cost S) (preconditioner_iter S).
 
 Definition opt_flag {A} (o : option A) (reuse : bool) : bool := (match o with Some _ => true | None => false end) || negb reuse.
 
 Lemma update_split sv B reuse :
-  update K sv B reuse =
+  update K sq sv B reuse =
   do '(pc, d) <- update_data sv B reuse ;;
   do k <- kkt_update_data d (sv_kkt sv) (opt_flag (b_P B) reuse) (opt_flag (b_A B) reuse) (opt_flag (b_G B) reuse) ;;
   Ok (sv <| sv_data := d |> <| sv_pc := pc |> <| sv_kkt := k |> <| sv_kkt_init_state := false |>).
@@ -266,7 +267,7 @@ Proof. intros [_ H]. destruct (sv_kkt_init_state a); [eapply kkt_agree_pend; eau
 
 (* whenever update() returns in both runs, the results agree *)
 Theorem update_agree_ok a b B reuse a' b' :
-  sv_agree a b -> update K a B reuse = Ok a' -> update K b B reuse = Ok b' -> sv_agree a' b'.
+  sv_agree a b -> update K sq a B reuse = Ok a' -> update K sq b B reuse = Ok b' -> sv_agree a' b'.
 Proof.
   intros H. pose proof (sv_agree_pend _ _ H) as Hp. destruct H as [Hobs _].
   rewrite !update_split, <- (update_data_obs a b B reuse Hobs).
@@ -286,7 +287,7 @@ Theorem update_junk_indep_cond a b B reuse :
      RR (fun _ _ => True)
         (kkt_update_data d (sv_kkt a) (opt_flag (b_P B) reuse) (opt_flag (b_A B) reuse) (opt_flag (b_G B) reuse))
         (kkt_update_data d (sv_kkt b) (opt_flag (b_P B) reuse) (opt_flag (b_A B) reuse) (opt_flag (b_G B) reuse))) ->
-  RR sv_agree (update K a B reuse) (update K b B reuse).
+  RR sv_agree (update K sq a B reuse) (update K sq b B reuse).
 Proof.
   intros H Hc. pose proof (sv_agree_pend _ _ H) as Hp. pose proof H as [Hobs _].
   rewrite !update_split, <- (update_data_obs a b B reuse Hobs).
@@ -313,7 +314,7 @@ Theorem update_junk_indep_no_growth a b B reuse :
   sv_agree_strong a b ->
   (forall pc d, update_data a B reuse = Ok (pc, d) ->
      (d_nlb d <= d_nlb (sv_data a))%nat /\ (d_nub d <= d_nub (sv_data a))%nat) ->
-  RR sv_agree (update K a B reuse) (update K b B reuse).
+  RR sv_agree (update K sq a B reuse) (update K sq b B reuse).
 Proof.
   intros H Hn. apply update_junk_indep_cond; [apply sv_agree_strong_agree; exact H|].
   intros pc d E. destruct (Hn pc d E) as [N1 N2]. destruct H as [_ [H _]].
